@@ -57,7 +57,7 @@
  "name": "tune_rewrite_inodes_pass",
  "props": ["C11"],
  "level": "U/iter",
- "tier": "wip",
+ "tier": "quick",
  "tier_after_hooks": "quick",
  "harness": "h_rewrite_inodes_pass",
  "backend": "cadical",
@@ -105,7 +105,7 @@
  "name": "tune_rewrite_metadata_checksums",
  "props": ["C11"],
  "level": "P",
- "tier": "wip",
+ "tier": "quick",
  "tier_after_hooks": "quick",
  "harness": "h_rewrite_metadata_checksums",
  "replace": ["rewrite_inodes"],
